@@ -4,6 +4,8 @@
 * `canon(sheet)`       reparse-level projection of a DOM (DOM API; leaf texts under the *leaf* preferences of p)
 * `effect(proj, p)`    the documented effect of the structural preferences as a transformation of that projection
 """
+import re
+
 import cssutils
 from cssutils import css
 from cssutils.tokenize2 import Tokenizer
@@ -12,7 +14,8 @@ LAYOUT = ('indent', 'indentClosingBrace', 'lineSeparator', 'listItemSpacer', 'pa
           'selectorCombinatorSpacer', 'spacer')
 # preferences that act below the declaration level (inside values / selectors / names): the projection is taken
 # with these set as in p, all others at their defaults (and keepUnknownAtRules on)
-LEAF = ('keepComments', 'minimizeColorHash', 'omitLeadingZero', 'resolveVariables', 'normalizedVarNames')
+LEAF = ('keepComments', 'resolveVariables', 'normalizedVarNames')
+LEAF_FIXED = {'minimizeColorHash': False, 'omitLeadingZero': False}
 
 
 def nontoks(text):
@@ -38,7 +41,8 @@ def decls(style):
             out.append(('comment', v._cssText or ''))
         elif isinstance(v, css.Property):
             if v.wellformed and v.seqs[0]:
-                out.append(('prop', v.name, lt(v.propertyValue.cssText), v.priority, bool(v.valid)))
+                out.append(('prop', v.name, lt(v.propertyValue.cssText), v.priority, bool(v.valid), v.literalname,
+                            v.literalpriority))
         elif isinstance(v, css.CSSUnknownRule):
             out.append(('unknown', lt(v.cssText), v.wellformed))
         else:
@@ -52,9 +56,10 @@ def canon_rule(r):
     if isinstance(r, css.CSSCharsetRule):
         return ('charset', r.encoding) if r.wellformed else None
     if isinstance(r, css.CSSImportRule):
-        return ('import', r.href, lt(r.media.mediaText), r.name) if r.wellformed else None
+        return ('import', r.href, lt(r.media.mediaText), r.name, r.hreftype, getattr(r, '_keyword', None)) \
+            if r.wellformed else None
     if isinstance(r, css.CSSNamespaceRule):
-        return ('namespace', r.prefix, r.namespaceURI) if r.wellformed else None
+        return ('namespace', r.prefix, r.namespaceURI, getattr(r, '_keyword', None)) if r.wellformed else None
     if isinstance(r, css.CSSMediaRule):
         if not r.media.wellformed:
             return None
@@ -129,6 +134,24 @@ def effective(ds):
     return [d for i, d in enumerate(ds) if d[0] != 'prop' or win.get(d[1]) == i]
 
 
+_LEADING_ZERO = re.compile(r'^([+-]?)0+(\.[0-9]+)(.*)$', re.S)
+
+
+def leaf_effect(toks, p):
+    """documented effect of the preferences that act on single tokens of a value, on the token tuple of the value
+    as written WITHOUT them: `minimizeColorHash` (#aabbcc -> #abc). `omitLeadingZero` (0.5px -> .5px) does not
+    show at reparse level — `.5px` is read back as the number 0.5 — so the projection (taken with omitLeadingZero off
+    on both sides) only sees it when the number itself changes."""
+    if toks is None:
+        return None
+    out = []
+    for t, v in toks:
+        if t == 'HASH' and p['minimizeColorHash'] and len(v) == 7 and v[1] == v[2] and v[3] == v[4] and v[5] == v[6]:
+            v = '#' + v[1] + v[3] + v[5]
+        out.append((t, v))
+    return tuple(out)
+
+
 def eff_decls(ds, p):
     out = []
     if not p['keepAllProperties']:
@@ -140,7 +163,9 @@ def eff_decls(ds, p):
         elif d[0] == 'prop':
             if p['validOnly'] and not d[4]:
                 continue
-            out.append(d[:4])
+            out.append(('prop', d[1], leaf_effect(d[2], p), d[3],
+                        d[1] if (p['defaultPropertyName'] and not p['keepAllProperties']) else d[5],
+                        d[3] if p['defaultPropertyPriority'] else d[6]))
         elif d[0] == 'unknown':
             if p['keepUnknownAtRules']:
                 out.append(d[:2])
@@ -158,11 +183,15 @@ def eff_rule(r, p, used):
     if k == 'namespace':
         if p['keepUsedNamespaceRulesOnly'] and r[2] not in used:
             return None
-        return r
+        return ('namespace', r[1], r[2], '@namespace' if p['defaultAtKeyword'] else r[3])
+    if k == 'import':
+        ht = {'string': 'string', 'uri': 'uri'}.get(p['importHrefFormat'], r[4])
+        return ('import', r[1], r[2], r[3], ht, '@import' if p['defaultAtKeyword'] else r[5])
     if k == 'variables':
         if p['resolveVariables']:
             return None
-        vs = [v for v in r[1] if v[0] == 'var' or (p['keepComments'] and v[1])]
+        vs = [(v[0], v[1], leaf_effect(v[2], p)) if v[0] == 'var' else v
+              for v in r[1] if v[0] == 'var' or (p['keepComments'] and v[1])]
         return ('variables', vs) if any(v[0] == 'var' for v in vs) else None
     if k == 'style':
         ds = eff_decls(r[2], p)
@@ -195,7 +224,7 @@ def effect(proj, p, used):
 def strip_flags(proj):
     """projection of a reparsed sheet -> same shape as the output of `effect`"""
     def ds(l):
-        return [d[:4] if d[0] == 'prop' else (d[:2] if d[0] == 'unknown' else d) for d in l]
+        return [(d[:4] + d[5:7]) if d[0] == 'prop' else (d[:2] if d[0] == 'unknown' else d) for d in l]
 
     def rule(r):
         k = r[0]
